@@ -152,7 +152,7 @@ def correspond(ctx):
     objs_by_sx = {}
     for ast in LIB_TERMS:
         terms.append((ast, sc.build(ast)))
-    for _ in range(ctx.n(150, 1500)):
+    for _ in range(ctx.n(400, 3000)):
         ast = sc.gen_any_term(rng, rng.choice([1, 2, 3]))
         try:
             terms.append((ast, sc.build(ast)))
@@ -197,7 +197,7 @@ def correspond(ctx):
     names = [objs[p][0].__name__.split(".")[-1] for p in sc.PUZZLES] + ["slither"]
     urls = []
     for p in sc.PUZZLES:
-        for _ in range(ctx.n(25, 150)):
+        for _ in range(ctx.n(60, 300)):
             h, w = (rng.randint(1, 6), rng.randint(1, 6)) if rng.random() < 0.9 else (rng.randint(1, 70), rng.randint(1, 70))
             u = valid_url(rng, objs, p, h, w)
             if u is None:
@@ -212,7 +212,7 @@ def correspond(ctx):
         if p in ("lits", "norinori", "heyawake"):
             for n in (30, 45, 60, 70):
                 urls.append((p, "https://puzz.link/p?%s/%d/%d/%s" % (p, n, n, "0" * (2 * ((n * (n - 1) + 4) // 5)) + "g" * 40), "big-no-borders"))
-    for _ in range(ctx.n(600, 6000)):
+    for _ in range(ctx.n(2000, 15000)):
         urls.append((rng.choice(sc.PUZZLES), random_url(rng, names), "random-url"))
     for p, u, how in urls:
         ctx.count("url:" + how)
